@@ -346,6 +346,183 @@ func runC10(r *Run) {
 	}
 	hd.Done()
 
+	// ---- returning a transaction to the pool is the last thing done with it
+	pl2 := r.Rule("C10.putlast", "on every path, nothing uses a transaction object after it was handed back to the pool (no method call on it, no field access, not passed on): from that moment a concurrent Start may own and refill it, and the handler invoked would be another transaction's", 2)
+	if m.Put != nil {
+		nPut := 0
+		for _, fn := range []*ssa.Function{m.Callback, m.Start} {
+			if fn == nil {
+				continue
+			}
+			var puts []*ssa.Call
+			eachInstr(fn, func(b *ssa.BasicBlock, i int, in ssa.Instruction) {
+				if c, ok := in.(*ssa.Call); ok && callsFn(c, m.Put) && len(c.Call.Args) >= 1 {
+					puts = append(puts, c)
+				}
+			})
+			for _, pc := range puts {
+				nPut++
+				obj := canonPhi(pc.Call.Args[0])
+				uses := func(in ssa.Instruction) bool {
+					if in == ssa.Instruction(pc) {
+						return false
+					}
+					var ops []*ssa.Value
+					for _, o := range in.Operands(ops) {
+						if o != nil && *o != nil && canonPhi(*o) == obj {
+							if _, isDbg := in.(*ssa.DebugRef); isDbg {
+								return false
+							}
+							return true
+						}
+					}
+					return false
+				}
+				rep := false
+				q := &PathQuery{P: p, Fn: fn, From: pc}
+				q.Step = func(in ssa.Instruction, deferred bool, st uint64, c *PathCtx) (uint64, bool) {
+					if !rep && uses(in) {
+						rep = true
+						pl2.ViolationPath(fn, instrPos(in), "use of the transaction after it was returned to the pool", "the object is used after putClientTransaction: a concurrent Start may already have taken it from the pool and stored its own handler and ID in it, so this completion reaches the wrong transaction (and the right one never hears of it)", c.Witness(fn, in))
+					}
+					return st, false
+				}
+				q.Run()
+				pl2.Instance(fmt.Sprintf("%s|put@b%d", fnName(fn), pc.Block().Index), true, nil)
+			}
+		}
+		if nPut == 0 {
+			pl2.Fail("putClientTransaction", "no call returning a transaction to the pool found in Start or the agent callback")
+		}
+		// and inside the function that returns it: handing the object to the pool is its last touch (the fields are
+		// cleared before, not after - afterwards they are the next owner's)
+		if m.Put.Blocks != nil {
+			r.Analysed(m.Put)
+			nPool := 0
+			eachInstr(m.Put, func(b *ssa.BasicBlock, i int, in ssa.Instruction) {
+				pc, ok := in.(*ssa.Call)
+				if !ok || pc.Call.IsInvoke() || len(pc.Call.Args) != 2 {
+					return
+				}
+				sc := pc.Call.StaticCallee()
+				if sc == nil || sc.Name() != "Put" || sc.Pkg == nil || sc.Pkg.Pkg.Path() != "sync" {
+					return
+				}
+				obj := pc.Call.Args[1]
+				if mi, isMI := obj.(*ssa.MakeInterface); isMI {
+					obj = mi.X
+				}
+				obj = canonPhi(obj)
+				nPool++
+				rep := false
+				q := &PathQuery{P: p, Fn: m.Put, From: pc}
+				q.Step = func(in2 ssa.Instruction, deferred bool, st uint64, c *PathCtx) (uint64, bool) {
+					if rep {
+						return st, false
+					}
+					if _, isDbg := in2.(*ssa.DebugRef); isDbg {
+						return st, false
+					}
+					var ops []*ssa.Value
+					for _, o := range in2.Operands(ops) {
+						if o != nil && *o != nil && canonPhi(*o) == obj {
+							rep = true
+							pl2.ViolationPath(m.Put, instrPos(in2), "the transaction is touched after sync.Pool.Put", "a field of the object is read or written after the pool has it: a concurrent Start may already own it, and what is cleared here is the next transaction's ID, handler or buffer", c.Witness(m.Put, in2))
+						}
+					}
+					return st, false
+				}
+				q.Run()
+				pl2.Instance(fnName(m.Put)+"|pool put", true, nil)
+			})
+			if nPool == 0 {
+				pl2.Fail(fnName(m.Put), "no sync.Pool.Put in the function that returns a transaction to the pool")
+			}
+		}
+	}
+	pl2.Done()
+
+	// ---- a failed retransmission is reported with its own error
+	ee := r.Rule("C10.errevent", "on every path of the agent callback on which a step of the retransmission has failed (the re-registration, the agent's Start, the write to the connection: their error is known non-nil), the event handed to the handler has had its Error stored after that step: the handler hears of the failure, not of the timeout that triggered the attempt", 2)
+	if m.Callback != nil && m.Handle != nil && m.Callback.Blocks != nil {
+		fn := m.Callback
+		var evErr *types.Var
+		if evT := p.Named("Event"); evT != nil {
+			evErr = FieldVar(evT, "Error")
+		}
+		type step struct {
+			call ssa.Instruction
+			err  ssa.Value
+			what string
+		}
+		var steps []step
+		eachInstr(fn, func(b *ssa.BasicBlock, i int, in ssa.Instruction) {
+			c, ok := in.(*ssa.Call)
+			if !ok {
+				return
+			}
+			switch {
+			case m.Reg != nil && callsFn(c, m.Reg):
+				steps = append(steps, step{c, c, "re-registration"})
+			case ifaceCallOnField(c, m.Agent, "Start"):
+				steps = append(steps, step{c, c, "agent Start"})
+			case ifaceCallOnField(c, m.Conn, "Write"):
+				for _, u := range *c.Referrers() {
+					if e, isE := u.(*ssa.Extract); isE && e.Index == 1 {
+						steps = append(steps, step{c, e, "connection write"})
+					}
+				}
+			}
+		})
+		if evErr == nil || len(steps) == 0 {
+			ee.Fail(fnName(fn), "Event.Error or the retransmission steps of the agent callback not found")
+		} else {
+			isStep := map[ssa.Instruction]bool{}
+			for _, st := range steps {
+				isStep[st.call] = true
+			}
+			rep := map[ssa.Instruction]bool{}
+			seen := map[string]bool{}
+			q := &PathQuery{P: p, Fn: fn, MaxStates: 20000}
+			q.Step = func(in ssa.Instruction, deferred bool, st uint64, c *PathCtx) (uint64, bool) {
+				if deferred {
+					return st, false
+				}
+				if isStep[in] {
+					return 0, false // a new step: what was stored before is about an earlier one
+				}
+				if s, ok := in.(*ssa.Store); ok {
+					if _, f := addrField(s.Addr); f == evErr && !isNilConst(s.Val) {
+						return 1, false
+					}
+				}
+				if cl, ok := in.(*ssa.Call); ok && callsFn(cl, m.Handle) {
+					for _, sp := range steps {
+						if c.NilState(sp.err) != -1 {
+							continue
+						}
+						key := fmt.Sprintf("%s|handle@b%d after failed %s", fnName(fn), cl.Block().Index, sp.what)
+						if !seen[key] {
+							seen[key] = true
+							ee.Instance(key, true, nil)
+						}
+						if st&1 == 0 && !rep[cl] {
+							rep[cl] = true
+							ee.ViolationPath(fn, instrPos(cl), "handler called with the stale event after a failed "+sp.what, "the "+sp.what+" failed on this path, but the event's Error was not stored afterwards: the handler is told of the timeout that triggered the retransmission, not of the error that ended the transaction", c.Witness(fn, cl))
+						}
+					}
+				}
+				return st, false
+			}
+			q.Run()
+			r.Analysed(fn)
+			if q.Exhausted {
+				ee.Fail(fnName(fn), "path exploration exhausted: undecided")
+			}
+		}
+	}
+	ee.Done()
+
 	// ---- the confirming removal identifies the transaction, not only its ID
 	ow := r.Rule("C10.owner", "the removal whose result confirms ownership (Start's and the callback's rollbacks) compares the table entry with the very transaction the caller is about to complete or report on: an entry registered later under the same ID is not taken for the caller's own", 1)
 	if m.Del != nil {
@@ -415,6 +592,11 @@ func runC10(r *Run) {
 	// a found transaction is completed, never handed to the fallback handler instead: the agent has already dropped
 	// its side, so nothing else would ever complete it (shared with C12)
 	r.Borrow("C12", map[string]string{"C12.fallback": "C10.fallback"})
+	// the retransmissions are bounded by the attempt counter, so the timeout of an unanswered request is eventually
+	// delivered (shared with C11); Close waits for nothing while it holds the client mutex, so the closed events are
+	// delivered and Do returns (shared with C15)
+	r.Borrow("C11", map[string]string{"C11.count": "C10.bounded"})
+	r.Borrow("C15", map[string]string{"C15.noblock": "C10.noblock"})
 }
 
 func checkCallbackPaths(r *Run, rc *RuleCtx, m *clientModel, k *keyer) {
